@@ -65,6 +65,11 @@ def lst(*a):
     return [1, 2]
 
 
+def label(value=0, text="t"):
+    # `text` is also a public function of this module: keyword names are not references
+    return "abc"
+
+
 def shade(*a):
     return Color.GREEN
 
